@@ -694,11 +694,15 @@ def pad(a, pad_width, mode):
             n = extent(d)
             # single wrap only: the contract model requires lo, hi <= n (pre-condition of the model)
             st, m = sym.refute_or_prove(z3.And(zi(lo) <= zi(n), zi(hi) <= zi(n), zi(lo) >= 0, zi(hi) >= 0))
+            multi = False
             if st != "proved":
-                raise OutOfReach("pad(wrap) wider than the axis: outside the contract model (requires pad <= extent)")
+                # wider than one period: modelled for a CONCRETE extent only (out[i] = x[(i - lo) mod n], several periods)
+                if concrete_int(n) is None or concrete_int(lo) is None or concrete_int(hi) is None or concrete_int(lo) < 0 or concrete_int(hi) < 0:
+                    raise OutOfReach("pad(wrap) wider than the axis: outside the contract model (requires pad <= extent or a concrete extent)")
+                multi = True
             nd = Atom(n + lo + hi)
             dims.append(nd)
-            plan.append((lo, n, d, nd))
+            plan.append((lo, n, d, nd, multi))
 
     def elem(idx):
         j = []
@@ -706,9 +710,12 @@ def pad(a, pad_width, mode):
             if pl is None:
                 j.append(ix)
                 continue
-            lo, n, d, nd = pl
+            lo, n, d, nd, multi = pl
             i = zi(arr.to_flat(nd, ix))
             s = i - zi(lo)
+            if multi:
+                j.append(Flat(z3.simplify(s % zi(n))))          # concrete modulus: linear
+                continue
             if valid(z3.And(s >= 0, s < zi(n))):
                 t = s
             elif valid(s < 0):
@@ -984,6 +991,35 @@ def _ident_decorator(f=None, *a, **k):
     return lambda g: g
 
 
+def jit(f=None, *a, static_argnums=(), static_argnames=(), **k):
+    """jax.jit / eqx.filter_jit: the function itself, with every non-static argument and the result taken through a pytree
+    flatten / unflatten (what tracing does): dict-valued children come back in SORTED key order, aux data is kept.  A jitted
+    helper that relies on the caller's insertion order is therefore executed with the order it really sees."""
+    if f is None or not callable(f):
+        return lambda g: jit(g, static_argnums=static_argnums, static_argnames=static_argnames)
+    sa = set([static_argnums] if isinstance(static_argnums, builtins.int) else list(static_argnums or ()))
+    sn = set([static_argnames] if isinstance(static_argnames, str) else list(static_argnames or ()))
+    import functools as _ft
+
+    def rt(x):
+        try:
+            ls, rb = tree_flatten_obj(x)
+            return rb(ls)
+        except (OutOfReach, Refuted):
+            raise
+        except Exception:
+            return x
+
+    @_ft.wraps(f)
+    def jitted(*args, **kwargs):
+        used("jit: identity up to a pytree flatten / unflatten of arguments and result")
+        args2 = [x if i in sa else rt(x) for i, x in enumerate(args)]
+        kw2 = {n: (v if n in sn else rt(v)) for n, v in kwargs.items()}
+        return rt(f(*args2, **kw2))
+    jitted.__wrapped_by_gvc_jit__ = True
+    return jitted
+
+
 class _DummyModule(types.ModuleType):
     """permissive stand-in for plotting / IO packages that the verified code never enters"""
 
@@ -1103,7 +1139,7 @@ def install():
                normal=random_uniform, PRNGKey=lambda s: ("key", s))
     nn = _mod("jax.nn", relu=ACT("relu"), gelu=ACT("gelu"), tanh=ACT("tanh"))
     jax = _mod("jax", numpy=jnp, lax=lax, tree_util=tu, random=rnd, nn=nn,
-               typing=_mod("jax.typing", ArrayLike=object), jit=_ident_decorator, vmap=vmap,
+               typing=_mod("jax.typing", ArrayLike=object), jit=jit, vmap=vmap,
                Array=SArray, Device=object, devices=lambda: DEVICES[0])
     eqnn = _mod("equinox.nn", State=object, Identity=lambda *a, **k: (lambda x, *r, **kk: x), GroupNorm=GroupNormModel,
                 BatchNorm=_Any("eqx.nn.BatchNorm"), Conv=_Any("eqx.nn.Conv"), ConvTranspose=_Any("eqx.nn.ConvTranspose"),
@@ -1120,7 +1156,7 @@ def install():
             return vmap(f, in_axes=axes)(*args)
         return mapped
 
-    eqx = _mod("equinox", Module=Module, field=_field, filter_jit=_ident_decorator, filter_vmap=filter_vmap,
+    eqx = _mod("equinox", Module=Module, field=_field, filter_jit=jit, filter_vmap=filter_vmap,
                nn=eqnn, is_array=lambda x: isinstance(x, SArray),
                tree_serialise_leaves=_Any("eqx.tree_serialise_leaves"),
                tree_deserialise_leaves=_Any("eqx.tree_deserialise_leaves"),
